@@ -6,6 +6,7 @@ CONSTANTS
   RcCap = 2
   MaxRefs = 60
   Strategy = "ff"
+  ExactPool = TRUE
 VIEW view
 CONSTRAINT PoolBound
 INVARIANTS FlagsSane CleanIsDurable Accounting KeysOK CellsOK CatalogOK Limits
